@@ -7,7 +7,7 @@ seed=${1:-20261003}; shift
 props=${@:-C02 C10 C06 C19 C18 C16 C17 C09 C20 C03}
 mkdir -p soak-out
 for p in $props; do
-  out=$(timeout 5400 ./check $p --tier thorough --seed $seed 2>&1); rc=$?
+  out=$(timeout 5400 ./check $p --tier thorough --seed $seed ${BUDGET:+--budget-s $BUDGET} 2>&1); rc=$?
   echo "thorough seed=$seed $p exit=$rc $(echo "$out" | grep -E 'runs in' | head -1)"
   if [ $rc -ne 0 ]; then echo "$out" > soak-out/$p-thorough-$seed.log; echo "$out" | grep -E 'VIOLATION|HARNESS|KNOWN' | head -5; fi
 done
